@@ -90,6 +90,11 @@ pub trait Property: Sync {
     fn exhaustive_claim(&self, _tier: Tier) -> Option<String> {
         None
     }
+    /// true if `exhaustive_claim` covers the property's whole quantified domain (as stated in its
+    /// text); otherwise the claim is reported as `exhaustive_subdomains` only
+    fn exhaustive_is_whole_domain(&self, _tier: Tier) -> bool {
+        false
+    }
     /// evidence level (EVIDENCE.schema.json)
     fn level(&self) -> &'static str {
         "exploration"
@@ -511,7 +516,7 @@ pub fn worker_main(prop: &dyn Property, tier: Tier, seed: u64, shard: u64, nshar
 
     // 2. generated part (proptest drives and shrinks the tape)
     let my_cases = total_cases / nshards + if shard < total_cases % nshards { 1 } else { 0 };
-    if my_cases > 0 && violations.is_empty() {
+    if my_cases > 0 {
         let cfg = Config {
             cases: my_cases.min(u32::MAX as u64) as u32,
             failure_persistence: None,
@@ -1050,8 +1055,13 @@ pub fn driver_main(prop: &dyn Property, tier: Tier, root: &Path) -> i32 {
         "worker_wall_s_max": worker_wall.iter().cloned().fold(0.0, f64::max),
     });
     if let Some(txt) = prop.exhaustive_claim(tier) {
-        coverage["exhaustive"] = Value::Bool(true);
-        coverage["exhaustive_domain"] = Value::String(txt);
+        if prop.exhaustive_is_whole_domain(tier) {
+            coverage["exhaustive"] = Value::Bool(true);
+            coverage["exhaustive_domain"] = Value::String(txt);
+        } else {
+            coverage["exhaustive"] = Value::Bool(false);
+            coverage["exhaustive_subdomains"] = Value::String(txt);
+        }
     }
     if let Some(o) = extra.as_object() {
         for (k, v) in o {
